@@ -190,7 +190,7 @@ class C11Check:
     def run_one(self, ch, keep_log=False, **_):
         import halmos.__main__ as hm
 
-        solver = ch.choose(["yices", "yices", "z3"], "sw.solver")
+        solver = ch.choose(["yices", "yices", "yices", "yices", "yices", "z3"], "sw.solver")
         layout = ch.choose(["solidity", "generic"], "sw.layout")
         cache = ch.chance(0.5, "sw.cache")
         threads = ch.choose([1, 2, 4], "sw.threads")
